@@ -27,8 +27,12 @@ DefaultEH(cfg) == "defeh" \in DOMAIN cfg /\ cfg.defeh
 \* (gin) the configured error handler does not abort the chain: after a middleware error the Handle route still
 \* runs, with a request scope that is already closed - the controller cannot be resolved from it
 NoAbort(cfg) == "noabort" \in DOMAIN cfg /\ cfg.noabort
+\* the failing configured middleware PANICS instead of returning an error: nothing of the integration swallows it, no error
+\* handler is involved, the handler is not reached - and the request scope is closed like on every other exit path
+MwPanic(cfg) == "mwpanic" \in DOMAIN cfg /\ cfg.mwpanic
 ExpectedErrHandlers(cfg) ==
     IF cfg.scopemw /\ cfg.provclosed THEN (IF DefaultEH(cfg) THEN <<>> ELSE <<"scope">>)
+    ELSE IF HasScope(cfg) /\ cfg.mwfail > 0 /\ MwPanic(cfg) THEN <<>>
     ELSE IF HasScope(cfg) /\ cfg.mwfail > 0 /\ NoAbort(cfg) THEN <<"mw", "handle_resolve">>
     ELSE IF HasScope(cfg) /\ cfg.mwfail > 0 THEN (IF DefaultEH(cfg) THEN <<>> ELSE <<"mw">>)
     ELSE IF IsHandle(cfg) /\ ~cfg.scopemw THEN <<"handle_scope">>
@@ -36,6 +40,7 @@ ExpectedErrHandlers(cfg) ==
     ELSE IF MethodRuns(cfg) /\ cfg.method = "panic" /\ cfg.recovery THEN <<"panic">>
     ELSE <<>>
 PanicEscapes(cfg) ==
+    \/ (HasScope(cfg) /\ cfg.mwfail > 0 /\ MwPanic(cfg))
     \/ (~IsHandle(cfg) /\ ReachesHandler(cfg) /\ cfg.handler = "panic")
     \/ (MethodRuns(cfg) /\ cfg.method = "panic" /\ ~cfg.recovery)
 
